@@ -1327,12 +1327,16 @@ def split_host_and_port(netloc: str) -> tuple[str, int | None]:
     .. versionadded:: 4.1
     """
     match = _netloc_re.match(netloc)
+    host = netloc
+    port: int | None = None
     if match:
-        host = match.group(1)
-        port: int | None = int(match.group(2))
-    else:
-        host = netloc
-        port = None
+        try:
+            port = int(match.group(2))
+            host = match.group(1)
+        except ValueError:
+            # More digits than int() is willing to convert
+            # (sys.get_int_max_str_digits): not a port number.
+            pass
     return (host, port)
 
 
